@@ -180,7 +180,8 @@ def interp_1d_conservative(phi, theta, target_theta_bins):
 
     out = _interp_1d_conservative(phi, theta_1, theta_2, theta_hat_1, theta_hat_2)
     if flip_switch:
-        out = out[::-1]
+        # flip back along the bin axis (the last one), not along the leading (column) axis
+        out = out[..., ::-1]
     return out
 
 
